@@ -336,6 +336,21 @@ def r01_6(run):
     run.count("backward_overrides", n)
 
 
+def r01_7(run):
+    from . import linearity as ln
+    for q in ("mygrad._utils.reduce_broadcast", "mygrad.operation_base.Operation.grad_post_process_fn"):
+        fi = anchor_func(run, q)
+        v = ln.cont_flat(ln.analyse_function(run, fi, [ln.L, ln.C], {}, 0))
+        ok = v in (ln.L, ln.Z)
+        run.ob("R01.7", loc(fi, fi.node), fi.short, "shared post-processing is linear in the gradient it receives", ok,
+               "abstract value L: sums over broadcast axes / asarray / identity" if ok else f"abstract value {v}: the broadcast reduction is not a linear map of the gradient")
+    rb = anchor_func(run, "mygrad._utils.reduce_broadcast")
+    sums = [c for c in own_nodes(rb.node) if isinstance(c, ast.Call) and isinstance(c.func, ast.Attribute) and c.func.attr == "sum"]
+    ok = len(sums) >= 2 and any(kw(c, "keepdims") is not None and norm(kw(c, "keepdims")) == "True" for c in sums)
+    run.ob("R01.7", loc(rb, rb.node), rb.short, "broadcast reduction sums (never averages / takes max) over leading and stretched axes", ok,
+           f"{len(sums)} `.sum(axis=...)` reductions, the stretched-axes one with keepdims=True" if ok else "reduction is not a pair of sums")
+
+
 def check(run):
     run.rule("R01.1", "collect_all_tensors_and_clear_grads builds a reverse topological order: post-order insertion, guarded by the "
              "seen/constant tests, descent over creator.variables, paired with the iteration direction in Tensor.backward", floor=7)
@@ -345,9 +360,11 @@ def check(run):
     run.rule("R01.4", "every stored contribution passed grad_post_process_fn(., var.shape) and, if a where-mask was recorded, the mask", floor=4)
     run.rule("R01.5", "operation contract: __call__ definitely assigns self.variables = its leading tensor parameters; every "
              "_op/_in_place_op call site binds against that signature", floor=150)
+    run.rule("R01.7", "reduce_broadcast / grad_post_process_fn are linear (sum) maps of the gradient", floor=3)
     run.rule("R01.6", "ops overriding backward() either reach super().backward(grad) on all paths or serve every variable", floor=2)
     r01_1(run)
     r01_2(run)
     r01_3_4(run)
     opcontract.r01_5(run)
     r01_6(run)
+    r01_7(run)
